@@ -146,6 +146,10 @@ VALUE_POOL = ["0", "1", "-1", "2", "4", "30", "2147483648", "9223372036854775808
               # and braces as str.format sees them
               "1000000000000", "999999999999", "-1000000000000", "-999999999999", "100000000", "99999999", "86399999999999",
               "253402300800", "{", "}", "}{", "{kids[9]}", "{cfgs.x}", "{default_kid!z}", "{:>9999999}", "https://a/{x}/{0}"]
+# the routes that interpret the manifest/media option set (named by endpoint; resolved against app.url_map at run time)
+FOCUS_ROUTES = ["dash-mpd-v3", "dash-mpd-v3", "dash-mpd-v3", "dash-media", "dash-media", "dash-media-by-time", "mpd-patch", "time",
+                "time", "mps-manifest", "mps-init-seg", "mps-media-seg-by-number", "view-stream", "video", "video-mps",
+                "dash-od-media", "dash-mpd-v2"]
 # option bundles that only bite together (an option that is ignored unless another one switches its feature on)
 COMBOS = [
     {"drm": "playready", "playready__la_url": None}, {"drm": "all", "playready__la_url": None},
@@ -181,7 +185,13 @@ def check_surface(case) -> Outcome:
     env = env16()
     out = Outcome()
     rules = sorted(env.app.url_map.iter_rules(), key=lambda r: (r.rule, r.endpoint))
-    rule = rules[case["rule"] % len(rules)]
+    if isinstance(case["rule"], str):
+        # a route named by its endpoint: the option-consuming routes get extra weight this way
+        named = [r for r in rules if r.endpoint == case["rule"]]
+        rule = named[0] if named else rules[0]
+        out.cls("focus-route")
+    else:
+        rule = rules[case["rule"] % len(rules)]
     streams = _env["streams"]
     picks = case["picks"]
     stream = streams[picks[0] % len(streams)]
@@ -271,7 +281,7 @@ class HttpSurface(Engine):
         names = option_names() + ["csrf_token", "ajax", "next", "index", "playready_la_url", "clearkey_la_url", "marlin_la_url", "es5", "nosuchoption"]
         opt = st.tuples(st.sampled_from(names), st.integers(0, len(VALUE_POOL) - 1))
         return st.fixed_dictionaries({
-            "rule": st.integers(0, 200), "picks": st.lists(st.integers(0, 40), min_size=6, max_size=6),
+            "rule": st.one_of(st.integers(0, 200), st.integers(0, 200), st.sampled_from(FOCUS_ROUTES)), "picks": st.lists(st.integers(0, 40), min_size=6, max_size=6),
             "opts": st.lists(opt, min_size=0, max_size=4),
             "method": st.sampled_from(["GET", "GET", "GET", "HEAD", "POST", "PUT", "DELETE"]),
             # roles that must not be able to change anything: every case then sees the same server state
